@@ -164,7 +164,9 @@ def _verify_session(case, r, label):
     ev = cal.clock_events(cal.date3(cfg['start']), cal.date3(cfg['end']), False, False)
     if ev:
         end = max(end, ev[-1][0])          # a plain-date end still simulates its last day in full
-    entry = {a: (None if v is None else cal.ts6(v)) for a, v in cfg['universe']['dates'].items()}
+    split = bool(cfg.get('alpha_universe'))      # the session trades a static universe of every symbol, the alpha
+    ucfg = cfg['alpha_universe'] if split else cfg['universe']     # model follows the dated entries
+    entry = {a: (None if v is None else cal.ts6(v)) for a, v in ucfg['dates'].items()}
     sig = cfg['alpha']['signal']
     rows = r.allocations
     inst = [row['Date'] for row in rows]
@@ -176,7 +178,15 @@ def _verify_session(case, r, label):
         t = row['Date']
         keys = set(row) - {'Date'}
         want = set(a for a, e in entry.items() if e is not None and e <= t)
-        if keys != want:
+        if split:
+            if keys != set(entry):
+                raise Violation('%s: target allocation at %s covers %s; the session universe is %s' % (
+                    label, t, sorted(keys), sorted(entry)))
+            for a in keys - want:
+                if row[a] != 0.0:
+                    raise Violation('%s: %s has target weight %r at %s but enters the alpha model\'s universe at %s' % (
+                        label, a, row[a], t, entry[a]))
+        elif keys != want:
             raise Violation('%s: target allocation at %s covers %s; universe members (entry <= t) are %s (entries %s)' % (
                 label, t, sorted(keys), sorted(want), {a: str(e) for a, e in entry.items()}))
         for a in want:
@@ -189,7 +199,8 @@ def _verify_session(case, r, label):
                 label, a, f[0], first.get(a), entry.get(a)))
     for a, e in entry.items():
         if e is None or e > end:
-            if a in r.holdings or any(f[1] == a for f in r.fills) or any(a in row for row in rows):
+            if a in r.holdings or any(f[1] == a for f in r.fills) or any(row.get(a, 0.0) != 0.0 if split else a in row
+                                                                             for row in rows):
                 raise Violation('%s: asset %s (entry %s) appears in the results' % (label, a, e))
     on = any(e is not None and e in inst for e in entry.values())
     after = any(e is not None and (e - pd.Timedelta(minutes=1)) in inst for e in entry.values())
@@ -218,7 +229,13 @@ def sessions(draw):
             dates[a] = v
             lab = lab + ['entry_' + l]
         cfg['universe'] = {'kind': 'dynamic', 'dates': dates}
-    return {'cfg': cfg, 'market': mk, 'labels': sorted(set(lab)), 'rerun_shared': draw(st.booleans())}
+    rerun = draw(st.booleans())
+    if not rerun and draw(st.sampled_from([False, False, True])):
+        # the session itself trades a static universe of every symbol; only the alpha model follows the dated entries
+        cfg['alpha_universe'] = cfg['universe']
+        cfg['universe'] = {'kind': 'static', 'assets': sorted(cfg['alpha_universe']['dates'])}
+        lab = lab + ['alpha_model_on_its_own_universe']
+    return {'cfg': cfg, 'market': mk, 'labels': sorted(set(lab)), 'rerun_shared': rerun}
 
 
 
